@@ -162,7 +162,22 @@ func (s *State) wellTyped(v Term, t types.Type) Term {
 			app("Bool", "<=", app("Int", "s.arr", v), s.alloc),
 			mkImp(mkEq(app("Int", "s.arr", v), intLit(0)), mkEq(app("Int", "s.cap", v), intLit(0))),
 		)
-	case *types.Pointer, *types.Map, *types.Signature, *types.Chan:
+	case *types.Pointer:
+		base := mkAnd(app("Bool", ">=", v, intLit(0)), app("Bool", "<=", v, s.alloc))
+		if tis := s.w.typeInvs[typeKey(u.Elem())]; len(tis) > 0 && !s.noTypeInv {
+			var cs []Term
+			for _, ti := range tis {
+				env := &Env{s: s, vars: map[string]SVal{ti.v: {t: v, gt: ti.gt}}, heap: s.heap, ghost: s.ghost, alloc: s.alloc, pkg: ti.pkg}
+				t, err := env.evalBool(ti.cl.Expr, ti.cl.Src)
+				if err != nil {
+					s.x.unsup("%v (%s)", err, ti.cl.Where)
+				}
+				cs = append(cs, t)
+			}
+			return mkAnd(base, mkImp(mkNot(mkEq(v, intLit(0))), mkAnd(cs...)))
+		}
+		return base
+	case *types.Map, *types.Signature, *types.Chan:
 		return mkAnd(app("Bool", ">=", v, intLit(0)), app("Bool", "<=", v, s.alloc))
 	case *types.Basic:
 		if u.Info()&types.IsUnsigned != 0 {
@@ -395,9 +410,19 @@ func sub(a, b Term) Term {
 func lt(a, b Term) Term { return app("Bool", "<", a, b) }
 func le(a, b Term) Term { return app("Bool", "<=", a, b) }
 
+// elemIndex is the absolute position of element i of a slice with offset
+// off. It is wrapped in the function idx (axiomatised as off+i) so that
+// quantified facts about slice elements have an arithmetic-free trigger.
+func elemIndex(off, i Term) Term {
+	if off.S == "0" {
+		return i
+	}
+	return app("Int", "idx", off, i)
+}
+
 func (s *State) sliceElem(h map[string]Term, sl Term, elem types.Type, i Term) Term {
 	arr := s.w.elemArray(elem)
-	return mkSelect(mkSelect(heapGet(s, h, arr, false), sArr(sl)), add(sOff(sl), i))
+	return mkSelect(mkSelect(heapGet(s, h, arr, false), sArr(sl)), elemIndex(sOff(sl), i))
 }
 
 // ---------------------------------------------------------------------------
@@ -594,6 +619,9 @@ func (x *Exec) step(s *State, in ssa.Instruction) bool {
 	case *ssa.Alloc:
 		elem := v.Type().(*types.Pointer).Elem()
 		r := s.newRef("new." + v.Name())
+		if len(w.typeInvs[typeKey(elem)]) > 0 {
+			s.tiAllocs = append(append([]tiAlloc{}, s.tiAllocs...), tiAlloc{r, typeKey(elem)})
+		}
 		p := s.toPtr(r, v.Type())
 		switch p.kind {
 		case pkStruct:
@@ -943,7 +971,7 @@ func (x *Exec) indexAddr(s *State, v *ssa.IndexAddr) {
 	case *types.Slice:
 		sl := s.valTerm(v.X)
 		s.goal(x.siteName(s.frame, "index", v), "safety", []string{"C14"}, mkAnd(le(intLit(0), idx), lt(idx, sLen(sl))), x.pos(v), "")
-		s.set(v, &PtrVal{kind: pkElem, base: sArr(sl), idx: add(sOff(sl), idx), rootT: xt.Elem()})
+		s.set(v, &PtrVal{kind: pkElem, base: sArr(sl), idx: elemIndex(sOff(sl), idx), rootT: xt.Elem()})
 	case *types.Pointer:
 		at, ok := xt.Elem().Underlying().(*types.Array)
 		if !ok {
@@ -1084,24 +1112,12 @@ func (x *Exec) typeAssert(s *State, v *ssa.TypeAssert) {
 	if t.Sort == sortRType {
 		x.unsup("type assertion on reflect.Type")
 	}
-	if it, isI := at.Underlying().(*types.Interface); isI {
+	if _, isI := at.Underlying().(*types.Interface); isI {
 		if isReflectNamed(at, "Type") {
 			ok = app("Bool", "(_ is any.rt)", t)
 			val = app(sortRType, "val.rt", t)
 		} else {
-			var alts []Term
-			for _, c := range w.implsOf(it) {
-				alts = append(alts, w.isCon(c, t))
-			}
-			// opaque external dynamic types may or may not implement it
-			pred := "ext.impl." + typeKey(at)
-			w.specFuncs[pred] = &specFuncDecl{Name: pred, Params: []SVarDecl{{"x", "Int"}}, Result: "Bool"}
-			alts = append(alts, mkAnd(app("Bool", "(_ is any.ext)", t), app("Bool", q(pred), app("Int", "ext.id", t))))
-			if it.NumMethods() == 0 {
-				ok = mkNot(mkEq(t, Term{"any.nil", sortAny}))
-			} else {
-				ok = mkOr(alts...)
-			}
+			ok = w.ifaceTest(t, at)
 			val = t
 		}
 	} else if isReflectNamed(at, "Value") {
@@ -1113,6 +1129,11 @@ func (x *Exec) typeAssert(s *State, v *ssa.TypeAssert) {
 		val = w.unbox(c, t)
 	}
 	ok = s.define(v.Name()+".ok", ok)
+	if _, isI := at.Underlying().(*types.Interface); !isI {
+		if wt := s.wellTyped(val, at); wt.S != "true" {
+			s.assume(mkImp(ok, wt))
+		}
+	}
 	if v.CommaOk {
 		zero := w.zeroOf(at)
 		if _, isI := at.Underlying().(*types.Interface); isI && !isReflectNamed(at, "Type") {
@@ -1123,6 +1144,23 @@ func (x *Exec) typeAssert(s *State, v *ssa.TypeAssert) {
 	}
 	s.goal(x.siteName(s.frame, "type-assert", v), "safety", []string{"C14"}, ok, x.pos(v), "")
 	s.set(v, val)
+}
+
+// ifaceTest: does the dynamic type of interface value t implement interface at?
+func (w *World) ifaceTest(t Term, at types.Type) Term {
+	it := at.Underlying().(*types.Interface)
+	if it.NumMethods() == 0 {
+		return mkNot(mkEq(t, Term{"any.nil", sortAny}))
+	}
+	var alts []Term
+	for _, c := range w.implsOf(it) {
+		alts = append(alts, w.isCon(c, t))
+	}
+	// opaque external dynamic types may or may not implement it
+	pred := "ext.impl." + typeKey(at)
+	w.specFuncs[pred] = &specFuncDecl{Name: pred, Params: []SVarDecl{{"x", "Int"}}, Result: "Bool"}
+	alts = append(alts, mkAnd(app("Bool", "(_ is any.ext)", t), app("Bool", q(pred), app("Int", "ext.id", t))))
+	return mkOr(alts...)
 }
 
 // next models one step of a map iteration with a ghost visited set.
